@@ -12,6 +12,8 @@ from typing import (
     Union,
 )
 
+import numpy as np
+import onnx
 import onnx_ir as ir
 
 import onnxscript
@@ -135,6 +137,20 @@ def make_value(
     value.meta.setdefault("sourceinfo", source_info)
     if typeinfo is not None:
         set_type_info(value, typeinfo)
+    return value
+
+
+def _snapshot_constant(value: Any) -> Any:
+    """Detach a script-time constant from objects the caller may mutate after decoration.
+
+    ``ir.tensor`` wraps numpy arrays and TensorProtos without copying them.
+    """
+    if isinstance(value, np.ndarray):
+        return value.copy()
+    if isinstance(value, onnx.TensorProto):
+        snapshot = onnx.TensorProto()
+        snapshot.CopyFrom(value)
+        return snapshot
     return value
 
 
@@ -442,7 +458,7 @@ class Converter:
         ovar = self._generate_unique_name(suggested_name)
 
         try:
-            tensor = ir.tensor(pyvalue, name=ovar)
+            tensor = ir.tensor(_snapshot_constant(pyvalue), name=ovar)
         except Exception as exc:  # pylint: disable=broad-exception-caught
             self._fail(
                 info.ast_node,
@@ -579,7 +595,7 @@ class Converter:
             return None
         attr_type = attr_meta.type if attr_meta else None
         if attr_type == ir.AttributeType.TENSOR:
-            val = ir.tensor(val)
+            val = ir.tensor(_snapshot_constant(val))
         attr = ir.convenience.convert_attribute(attr_name, val, attr_type)
         return attr
 
